@@ -22,7 +22,7 @@ func init() {
 			"(R3) negation cannot be produced by the parser: no NotExpression is constructed in anything reachable from sqe.Parse, and the NOT token is an error; " +
 			"(R4) both skip predicates are the negation of membership / evaluation, and the executor uses the pre-computed bitmap exactly when one exists; " +
 			"(R5) the optimiser only flattens an OR into an OR; " +
-			"(R6) the index maps each emitted key to the set of block numbers of the items that emitted it. Also (R1) both evaluators look a key term up under a key of the same provenance. Also (R6) nothing set while building one module's executor (block index, precomputed bitmap) is read while building the next.",
+			"(R6) the index maps each emitted key to the set of block numbers of the items that emitted it. Also (R1) both evaluators look a key term up under a key of the same provenance. Also (R6) nothing set while building one module's executor (block index, precomputed bitmap) is read while building the next. Also (R4) every value Skip returns is false or !Contains(block).",
 		NotCovered:  "Semantic equality of the two evaluators on all expressions and data (only their case-by-case structure is compared); roaring bitmap correctness.",
 		Assumptions: []string{"roaring64.Bitmap And/Or implement set intersection/union", "Clone() returns an independent copy"},
 	})
@@ -630,6 +630,7 @@ func runC15(p *core.Prog, r *core.Report) {
 	r.Guard("C15.R6", "index-file", "index file round trip", func() { checkIndexFileCodec(p, r, "C15.R6") })
 	r.Guard("C15.R6", "index-upload", "the index file is uploaded whole on every attempt", func() { checkFreshReaderPerAttempt(p, r, "C15.R6") })
 	r.Guard("C15.R6", "precomputed-bitmap", "same expression on keys and on stored bitmaps", func() { checkPrecomputedBitmap(p, r) })
+	r.GuardExact("C15.R4", "skip/all-leaves", "Skip answers only from Contains", func() { checkSkipAllLeaves(p, r, "C15.R4") })
 	r.GuardExact("C15.R6", "executors/per-module", "each module gets its own filter", func() {
 		checkNoCarriedState(p, r, "C15.R6", pkgPipe, "Pipeline.BuildModuleExecutors", "each module's executor is built from that module alone: no block index or precomputed bitmap found for one module is handed to the next")
 	})
